@@ -119,6 +119,8 @@ def check(ctx):
         # in composition (whole chains, Conv): identifiers / options of exactly the plugins that ran, default lease time only when none is set
         from . import fam_conv
         st.update(fam_conv.run(ctx))
+        if prop == "C14":
+            st.update(fam_conv.run6(ctx))
     st["binding_selftest"] = selftest(ctx, t) if not ctx.violations else {"skipped": "violations reported"}
     ctx.trusted += ["harness/plugins.go: request construction through the codec, this file's own encoders of the configured values (addresses, uint16/uint32, "
                     "RFC 1035 labels, RFC 3442 routes, DUIDs, RFC 5970 parameters) and byte comparison with the serialised reply", "TLC evaluation of PluginsTrace guards"]
@@ -131,6 +133,9 @@ def check(ctx):
 
 def replay(ctx, path):
     meta = json.load(open(os.path.join(path, "meta.json")))
+    if meta.get("family") == "conv6":
+        from . import fam_conv
+        return fam_conv.replay6(ctx, path)
     if meta.get("family") == "conv":
         from . import fam_conv
         return fam_conv.replay(ctx, path)
